@@ -170,6 +170,11 @@ def style_params(case, kw):
                 kw[key] = (np.float64 if isinstance(kw[key], float) else np.int64)(kw[key])
     elif st == 'half' and kw.get('min_npix', 0) >= 1:
         kw['min_npix'] = kw['min_npix'] - 0.5
+    elif st == 'omit':
+        # rely on the documented defaults (min_delta=0, min_npix=0) instead of passing zeros
+        for key in ('min_delta', 'min_npix'):
+            if key in kw and kw[key] == 0:
+                del kw[key]
 
 
 def npix_param(v):
@@ -216,7 +221,7 @@ def compute_impl(case, verbose=False, neighbours_obj=None):
         for s_ in other_shape:
             nn *= s_
         other = (np.arange(nn, dtype=float) * 7 % 11).reshape(other_shape)
-        kw0 = {'min_delta': kw['min_delta'] + 3, 'min_npix': case['minn'] + 2, 'is_independent': lst}
+        kw0 = {'min_delta': kw.get('min_delta', 0) + 3, 'min_npix': case['minn'] + 2, 'is_independent': lst}
         if case.get('periodic') and neighbours_obj is None:
             kw0['neighbours'] = kw['neighbours']
         with warnings.catch_warnings():
